@@ -853,14 +853,17 @@ fn walk_unicode(u: &ast::ClassUnicode, w: &mut Walk) {
             w.unsupported.get_or_insert("valued Unicode class".into());
         }
         ast::ClassUnicodeKind::OneLetter(c) => {
-            if NONSENSE_UNICODE_LETTERS.contains(c) {
+            // the one-letter general categories are L M N P S Z C; any other letter is unknown
+            // (lower case spellings count as plausible: loose matching would accept them)
+            if NONSENSE_UNICODE_LETTERS.contains(c) || !"LMNPSZC".contains(c.to_ascii_uppercase()) {
                 w.unsupported.get_or_insert(format!("unknown Unicode class {}", c));
             } else {
                 w.unicode = true;
             }
         }
         ast::ClassUnicodeKind::Named(n) => {
-            if NONSENSE_UNICODE_NAMES.contains(&n.as_str()) {
+            // property names and values are ASCII; a name with other characters is unknown
+            if NONSENSE_UNICODE_NAMES.contains(&n.as_str()) || !n.is_ascii() {
                 w.unsupported.get_or_insert(format!("unknown Unicode class {}", n));
             } else {
                 w.unicode = true;
